@@ -69,7 +69,7 @@ def _gen(ctx):
                     consts=dict(base, MaxDiff="1" if quick else "2", MaxOpen="2"))
         add(shared, r.printed.get("SCRIPT", []), None, limit=None if quick else 30000)
         # the whole field product, sampled by seeded random walks (each forged field drawn independently)
-        num = 300 if quick else 6000
+        num = 300 if quick else 3000
         r = ctx.tlc("GenEnvelope", "Gen_Envelope.cfg", name="sim_" + tag, workers=1, simulate="num=%d" % num, depth=12,
                     timeout=1500, heap="8g", consts=dict(base, Mode='{"forge"}', MaxDiff="99", MaxOpen="2", Sample="TRUE"))
         add(shared, r.printed.get("SCRIPT", []), "product", limit=2 * num)
